@@ -109,10 +109,18 @@ func (c *AdminOP)SetState(s StateDB){
 
 func (c *AdminOP) Run(input []byte) ([]byte, error) {
 	//[$len + $arg]
+	// the call data comes from an arbitrary transaction: it must hold the length
+	// word and the 20-byte sender, and the length word must not wrap around
+	if len(input) < 32+20 {
+		return nil, fmt.Errorf("admin call data too short: %d bytes", len(input))
+	}
 	dlen := new(big.Int).SetBytes(input[:32]).Uint64()
 	offset := dlen + 32
-	if int(offset) > len(input) {
+	if offset < dlen || offset > uint64(len(input)) {
 		offset = uint64(len(input))
+	}
+	if offset < 32+20 {
+		return nil, fmt.Errorf("admin call data length word too small: %d", dlen)
 	}
 	from := input[32:32+20]
 	data := input[32+20:offset]
